@@ -2767,12 +2767,11 @@ func (db *DB) snapshotPosition(ctx context.Context) (*snapshotReadPosition, erro
 }
 
 // snapshotWALEndOffset returns the WAL offset a snapshot may read up to for
-// the given position. db.syncState is read without db.mu because every writer
-// mutates it while holding execSem, which the caller also holds.
+// the given position. The extent always comes from the last level-0 file and is
+// used only if the WAL still carries that file's salts: the offset remembered in
+// db.syncState belongs to the WAL generation it was measured in, and the
+// application may have restarted the WAL since.
 func (db *DB) snapshotWALEndOffset(pos ltx.Pos) (int64, error) {
-	if db.syncState.lastSyncedWALOffset > 0 {
-		return db.syncState.lastSyncedWALOffset, nil
-	}
 	if pos.TXID == 0 {
 		return WALHeaderSize, nil
 	}
